@@ -1,7 +1,7 @@
 #!/bin/bash
 # tools/seedcheck.sh <ID> <dir with patch.diff demo.py meta.json> [check ids...]
 # confirms a seeded change on a scratch copy of /repo and runs the checks against it
-ID=$1; SRC=$2; shift 2; CHECKS=${@:-$ID}
+ID=$1; SRC=$(realpath "$2"); shift 2; CHECKS=${@:-$ID}
 W=/tmp/seedcheck-$ID
 rm -rf $W && cp -r /repo $W && cd $W || exit 9
 mkdir -p seed_$ID && cp $SRC/demo.py seed_$ID/demo.py
